@@ -178,7 +178,9 @@ fn fill(c: &Col, i: usize, j: usize) -> u128 {
         let w = vals::st_bits(&c.st);
         (base ^ (0xA5u128 << (w - 8))) & vals::st_mask(&c.st)
     } else {
-        base
+        // long tables: the value wraps in narrow columns (rows 16 apart then coincide in a u8 column; the wide
+        // columns of every layout still tell all rows apart)
+        base & vals::st_mask(&c.st)
     }
 }
 
@@ -397,6 +399,20 @@ enum KeyGen {
     All,
     /// all |alphabet|^n key columns with rows from an explicit alphabet
     Alpha(Vec<u64>),
+    /// all periodic key columns: every period word of length 1..=pmax over the values 0..2^b, repeated to n rows
+    Periodic(usize),
+}
+
+fn periodic_words(pmax: usize, b: u32) -> Vec<Vec<u64>> {
+    let a = 1u64 << b;
+    let mut out = vec![];
+    for p in 1..=pmax {
+        for k in 0..a.pow(p as u32) {
+            let mut kk = k;
+            out.push((0..p).map(|_| { let v = kk % a; kk /= a; v }).collect());
+        }
+    }
+    out
 }
 
 impl KeyGen {
@@ -404,6 +420,7 @@ impl KeyGen {
         match self {
             KeyGen::All => 1u64 << (n as u32 * b),
             KeyGen::Alpha(a) => (a.len() as u64).pow(n as u32),
+            KeyGen::Periodic(pmax) => periodic_words(*pmax, b).len() as u64,
         }
     }
     fn rows(&self, k: u64, n: usize, b: u32) -> Vec<u64> {
@@ -419,6 +436,10 @@ impl KeyGen {
                         v
                     })
                     .collect()
+            }
+            KeyGen::Periodic(pmax) => {
+                let w = &periodic_words(*pmax, b)[k as usize];
+                (0..n).map(|i| w[i % w.len()]).collect()
             }
         }
     }
@@ -577,6 +598,21 @@ fn sort_plain_work(thorough: bool) -> (Vec<SortWork>, J) {
             push(1, n, 3, KeyGen::Alpha(vec![1, 4, 6]));
         }
     }
+    // A6: long tables (the sorting routine of the evaluator may switch algorithm with the length): every periodic
+    // key column of period <= 4 (b=1), <= 3 (b=2), <= 2 (b=3) at lengths around the small-slice thresholds of the
+    // standard sorts (20/21, 32/33, 50, 64) and beyond; the payload (row index) shows any unstable step
+    for n in [16usize, 20, 21, 22, 24, 32, 33, 50, 64, 65, 100, 128, 200] {
+        if !thorough && n > 100 {
+            continue;
+        }
+        push(1, n, 1, KeyGen::Periodic(4));
+        push(1, n, 2, KeyGen::Periodic(3));
+        push(1, n, 3, KeyGen::Periodic(2));
+        if n <= 33 {
+            push(0, n, 2, KeyGen::Periodic(2));
+        }
+    }
+    bounds.push(json!("A6: n in {16,20,21,22,24,32,33,50,64,65,100 (thorough: 128,200)}: every periodic key column with period <=4 (b=1), <=3 (b=2), <=2 (b=3), layout 1 (layout 0 for n<=33)"));
     // A5: 128-bit payload columns whose high 64 bits are in use
     for layout in [4usize, 5] {
         for n in 1..=3usize {
@@ -766,10 +802,24 @@ fn intkey_work(thorough: bool) -> (Vec<IntWork>, J) {
             for c in ladder_cases(st) {
                 ws.push(IntWork { variant, st: *st, n: c.len(), cases: vec![c], ladder: true });
             }
+            // long columns: every periodic column of period <= 3 over the alphabet at 24, 40 and 70 rows (table variant)
+            if variant == 1 {
+                for n in [24usize, 40, 70] {
+                    let mut cases = vec![];
+                    for p in 1..=3usize {
+                        for k in 0..(a.len() as u64).pow(p as u32) {
+                            let mut kk = k;
+                            let w: Vec<u128> = (0..p).map(|_| { let v = a[(kk % a.len() as u64) as usize]; kk /= a.len() as u64; v }).collect();
+                            cases.push((0..n).map(|i| w[i % p]).collect::<Vec<u128>>());
+                        }
+                    }
+                    ws.push(IntWork { variant, st: *st, n, cases, ladder: true });
+                }
+            }
         }
     }
     let bounds = json!(format!(
-        "B: all 11 scalar types as key; all key columns of length n<=5 over the alphabet (unsigned: 0,1,2^(w-1)-1,2^(w-1),2^w-1; signed: min,-1,0,1,max; bit: 0,1) for the (idx,key) table, n<={} for create_sort_graph; plus 4 one-hot ladder columns (<=12 rows) per type and variant",
+        "B: all 11 scalar types as key; all key columns of length n<=5 over the alphabet (unsigned: 0,1,2^(w-1)-1,2^(w-1),2^w-1; signed: min,-1,0,1,max; bit: 0,1) for the (idx,key) table, n<={} for create_sort_graph; plus 4 one-hot ladder columns (<=12 rows) per type and variant, plus every periodic column (period <=3 over the alphabet) of 24, 40 and 70 rows for the table variant",
         if thorough { 5 } else { 4 }
     ));
     (ws, bounds)
